@@ -75,7 +75,7 @@ PROPS["C02"] = dict(
     drive=dict(quick=dict(n=1500, size=6), thorough=dict(n=30000, size=10)),
     nontrivial=lambda e: e["out"].get("k") == "ok" and (_doc_ntoks(e) >= 2 or e["out"].get("kind") == "index"),
     corrupt=_corrupt_decode,
-    rule="cases: every mappings text of the TLC universe (MC_Mappings: leads x segments x separators x trails x array sizes, plus every single fault) wrapped in a default envelope, and seeded random regular/Hermes/index documents (random key order, optional keys, junk header, null sources, numeric names, both debug id keys, source roots); distinct = distinct document; non-trivial = decodes successfully with >= 2 tokens or is an index map; numeric names as literals beyond 53 bits and fractions; unknown keys with well-formed values anywhere in the key order; random rangeMappings; refused documents (C06's) mixed into the stream; url next to an embedded map; sections sharing an offset",
+    rule="cases: every mappings text of the TLC universe (MC_Mappings: leads x segments x separators x trails x array sizes, plus every single fault) wrapped in a default envelope, and seeded random regular/Hermes/index documents (random key order, optional keys, junk header, null sources, numeric names, both debug id keys, source roots); distinct = distinct document; non-trivial = decodes successfully with >= 2 tokens or is an index map; numeric names as literals beyond 53 bits and fractions; unknown keys with well-formed values anywhere in the key order; random rangeMappings; refused documents (C06's) mixed into the stream; url next to an embedded map; sections sharing an offset; index maps without sections; Hermes documents whose function maps are unparsable (cut off after 0..3 complete values), also around every TLC-enumerated text",
     assumptions=COMMON_ASSUMPTIONS + ["documents are written by the harness's own writer (string escaping delegated to serde_json)"],
 )
 
@@ -92,7 +92,7 @@ PROPS["C06"] = dict(
     drive=dict(quick=dict(n=6000, size=4), thorough=dict(n=100000, size=8)),
     nontrivial=lambda e: (len(e["args"]["doc"]["mappings"][0]) >= 2 if e["args"]["doc"]["mappings"] else bool(e["args"]["doc"].get("sections"))),
     corrupt=_corrupt_decode,
-    rule="cases: every text of MC_Mappings (base texts and every single fault at every position, 3 array sizes incl. empty arrays) and seeded random well-formed texts damaged by 1-2 faults (9 fault operators); distinct = distinct (text, sizes); non-trivial = text of >= 2 symbols; faults placed in any mappings text of flat / Hermes / (nested) index documents; texts written for more sources / names than declared with independently sized tables",
+    rule="cases: every text of MC_Mappings (base texts and every single fault at every position, 3 array sizes incl. empty arrays) and seeded random well-formed texts damaged by 1-2 faults (9 fault operators); distinct = distinct (text, sizes); non-trivial = text of >= 2 symbols; faults placed in any mappings text of flat / Hermes / (nested) index documents; texts written for more sources / names than declared with independently sized tables; a Hermes variant of every TLC-enumerated text with a function map cut off after 0..3 complete values",
     assumptions=COMMON_ASSUMPTIONS,
 )
 
@@ -162,7 +162,7 @@ PROPS["C01"] = dict(
     drive=dict(quick=dict(n=600, size=4), thorough=dict(n=12000, size=10)),
     nontrivial=lambda e: e["out"].get("k") == "ok" and (_map_ntoks(e) >= 2 or e["args"]["p1"].get("kind") == "index"),
     corrupt=_corrupt_map,
-    rule="cases: every ordered token list of MC_Encode (<= MaxToks tokens over Lines x Cols with 5 payload kinds, duplicates and shared positions), each built via new/builder/doc; seeded random models (<= ~50..120 tokens, duplicate/empty/unicode strings, roots, contents, ignore lists, debug ids) and random Hermes / nested index documents; distinct = distinct (how, model); non-trivial = >= 2 tokens or an index map; every model also through a setters route (set_source_root / set_source / set_source_contents / set_file / add_to_ignore_list after construction); column and original-position deltas from every VLQ digit-count class; generated source / root names of mixed UTF-8 width; names spelled like sources; sections sharing an offset",
+    rule="cases: every ordered token list of MC_Encode (<= MaxToks tokens over Lines x Cols with 5 payload kinds, duplicates and shared positions), each built via new/builder/doc; seeded random models (<= ~50..120 tokens, duplicate/empty/unicode strings, roots, contents, ignore lists, debug ids) and random Hermes / nested index documents; distinct = distinct (how, model); non-trivial = >= 2 tokens or an index map; every model also through a setters route (set_source_root / set_source / set_source_contents / set_file / add_to_ignore_list after construction); column and original-position deltas from every VLQ digit-count class; generated source / root names of mixed UTF-8 width; names spelled like sources; sections sharing an offset; round 8: remove_names() in the setters route, a builder fed through add / add_raw / add_token in scrambled order, index maps without sections, Hermes documents with unparsable function maps",
     assumptions=COMMON_ASSUMPTIONS,
 )
 
@@ -179,7 +179,7 @@ PROPS["C03"] = dict(
     drive=dict(quick=dict(n=500, size=4), thorough=dict(n=10000, size=10)),
     nontrivial=lambda e: e["out"].get("k") == "ok" and (_map_ntoks(e) >= 2 or e["args"].get("p1", {}).get("kind") == "index"),
     corrupt=_corrupt_map,
-    rule="cases: as C01, plus seeded maps with FULL-RANGE 32-bit positions (columns/lines at 0, 2^31+-1, 2^32-1, deltas up to +-(2^32-1)) whose mappings text is decoded by the specification with exact bit-list arithmetic (Mappings!DecodeV); per realised map the direct serialisation plus the serialisations of rewrite(default), adjust_mappings(self), flatten (index maps) and the to_data_url payload; distinct = distinct (how, via, map projection); non-trivial = >= 2 tokens or an index map; every map also written into a short-write sink (1/7/64/4096 bytes per call, interrupted calls); the crate's placeholder strings in the pools",
+    rule="cases: as C01, plus seeded maps with FULL-RANGE 32-bit positions (columns/lines at 0, 2^31+-1, 2^32-1, deltas up to +-(2^32-1)) whose mappings text is decoded by the specification with exact bit-list arithmetic (Mappings!DecodeV); per realised map the direct serialisation plus the serialisations of rewrite(default), adjust_mappings(self), flatten (index maps) and the to_data_url payload; distinct = distinct (how, via, map projection); non-trivial = >= 2 tokens or an index map; every map also written into a short-write sink (1/7/64/4096 bytes per call, interrupted calls); the crate's placeholder strings in the pools; round 8: remove_names() in the setters route, builder_mixed route",
     assumptions=COMMON_ASSUMPTIONS,
 )
 
@@ -202,7 +202,7 @@ PROPS["C04"] = dict(
     drive=dict(quick=dict(n=300, size=4), thorough=dict(n=6000, size=12)),
     nontrivial=lambda e: e["out"].get("k") == "ok" and ((e["op"] in ("lookups", "iterate") and len(e["args"]["toks"]) >= 2) or (e["op"] == "ordering" and len(e["out"]["toks"]) >= 2)),
     corrupt=_corrupt_map,
-    rule="cases: every iterator session of MC_TokenIter (<= MaxSteps stepping calls + one consuming call); every ordered position list of MC_Lookup (<= MaxToks tokens, repetitions) x 25 queries (grid, off-grid, u32::MAX), three construction routes; seeded random maps (<= ~100..300 tokens, heavy position sharing) and index documents, each also through rewrite / adjust_mappings / reload / flatten, ~34 queries each around tokens; distinct = distinct (map, query list); non-trivial = map with >= 2 tokens",
+    rule="cases: every iterator session of MC_TokenIter (<= MaxSteps stepping calls + one consuming call); every ordered position list of MC_Lookup (<= MaxToks tokens, repetitions) x 25 queries (grid, off-grid, u32::MAX), three construction routes; seeded random maps (<= ~100..300 tokens, heavy position sharing) and index documents, each also through rewrite / adjust_mappings / reload / flatten, ~34 queries each around tokens; distinct = distinct (map, query list); non-trivial = map with >= 2 tokens; builder_mixed route: add / add_raw / add_token on one builder in scrambled order",
     assumptions=COMMON_ASSUMPTIONS,
 )
 
@@ -248,7 +248,7 @@ PROPS["C19"] = dict(
     drive=dict(quick=dict(n=5000, size=4), thorough=dict(n=200000, size=6)),
     nontrivial=lambda e: len(e["args"]["base"]) + len(e["args"]["target"]) >= 3,
     corrupt=_corrupt_c19,
-    rule="cases: all pairs of paths of 1..MaxLen (3 quick / 5 thorough) components over 3 names x {absolute, relative} x {'/', '\\\\'}; seeded random pairs of 1..6 components over pools of 2..5 names incl. names with spaces, dots and non-ASCII; distinct = distinct (base, target, abs, sep); non-trivial = at least 3 components in total; abstract names concretised by confusable strings (case, prefix extension, composed/decomposed accents); aliased arguments (slices of one buffer)",
+    rule="cases: all pairs of paths of 1..MaxLen (3 quick / 5 thorough) components over 3 names x {absolute, relative} x {'/', '\\\\'}; seeded random pairs of 1..6 components over pools of 2..5 names incl. names with spaces, dots and non-ASCII; distinct = distinct (base, target, abs, sep); non-trivial = at least 3 components in total; abstract names concretised by confusable strings (case, prefix extension, composed/decomposed accents); aliased arguments (slices of one buffer); separators written twice (the same ones in both paths, or independently)",
     assumptions=COMMON_ASSUMPTIONS,
 )
 
@@ -340,7 +340,7 @@ PROPS["C15"] = dict(
     drive=dict(quick=dict(n=1500, size=4), thorough=dict(n=30000, size=7)),
     nontrivial=lambda e: len(e["args"]["text"]) >= 2,
     corrupt=_corrupt_c15,
-    rule="cases: every text of <= MaxText chars over {LF, CR, 'a', U+1F60D} x every history of Depth requests over get_line(0..MaxText+1), line_count, lines (TLC), every (line, c, n) slice with c, n in {0..3, u32::MAX}; seeded texts of up to ~200 chars (2/3/4-byte characters, CR/LF mixes) with up to 50 requests incl. extreme slices; distinct = distinct (op, args) ; non-trivial = text of >= 2 characters; clone calls in histories; long-line segment family (byte lengths 2^k-2..2^k+2, k=6..13) judged through SegLemma / SegSliceLemma",
+    rule="cases: every text of <= MaxText chars over {LF, CR, 'a', U+1F60D} x every history of Depth requests over get_line(0..MaxText+1), line_count, lines (TLC), every (line, c, n) slice with c, n in {0..3, u32::MAX}; seeded texts of up to ~200 chars (2/3/4-byte characters, CR/LF mixes) with up to 50 requests incl. extreme slices; distinct = distinct (op, args) ; non-trivial = text of >= 2 characters; clone calls in histories; long-line segment family (byte lengths 2^k-2..2^k+2, k=6..13) judged through SegLemma / SegSliceLemma; slice walks along one astral-dense line (each slice starts where the previous one ended, +-1, or again)",
     assumptions=COMMON_ASSUMPTIONS,
 )
 
@@ -556,7 +556,7 @@ PROPS["C18"] = dict(
     drive=dict(quick=dict(n=800, size=3), thorough=dict(n=16000, size=8)),
     nontrivial=lambda e: (e["op"] == "locate" and len(e["args"]["file"]) > 3) or e["op"] in ("dataurl", "detect"),
     corrupt=_corrupt_c18,
-    rule="cases: every file of MC_Detector (<= MaxLines lines from {code, ref, legacy ref, indented, mid-line look-alike, empty URL, URL with blanks, empty line} x {LF, CRLF, no final newline}); every token list of MC_Encode as a map (three construction routes) for data URLs and detection; seeded files (case/spacing look-alikes, lone CR, non-ASCII blanks, data: URLs) and random flat/Hermes/index maps; distinct = distinct (op, args); non-trivial = file longer than 3 characters or any map event; near-miss marker lines; reference discovery through a short-read source",
+    rule="cases: every file of MC_Detector (<= MaxLines lines from {code, ref, legacy ref, indented, mid-line look-alike, empty URL, URL with blanks, empty line} x {LF, CRLF, no final newline}); every token list of MC_Encode as a map (three construction routes) for data URLs and detection; seeded files (case/spacing look-alikes, lone CR, non-ASCII blanks, data: URLs) and random flat/Hermes/index maps; distinct = distinct (op, args); non-trivial = file longer than 3 characters or any map event; near-miss marker lines; reference discovery through a short-read source; views with a history (line index built completely / partly, slices, clone, asked twice, from_string)",
     assumptions=COMMON_ASSUMPTIONS,
 )
 
@@ -603,7 +603,7 @@ PROPS["C05"] = dict(
     corrupt=_corrupt_c05,
     corruptible=lambda e: True,
     harness_timeout=7000,
-    rule="cases: every (kind, fault set) of MC_Lifecycle (3 kinds x ~80 faults, pairs in thorough) concretised on base documents; seeded: arbitrary bytes, JSON-alphabet bytes, 1-4 byte-level mutations (overwrite, delete, insert structural bytes, truncate, splice extreme numbers, duplicate chunks, long VLQ runs, swap) of every repository fixture map, random regular / Hermes / nested index documents (mutated or not), random multi-fault documents; each run through detect, decode, ~all read-only queries, serialise + redecode, 16 rewrite option combinations, flatten; distinct = distinct (input digest, step); non-trivial = any step other than detection; well-formed documents of the map family (long lines with range flags, > 64 sources, every VLQ digit class) through the same life cycle; a sourceless token in the fault documents' base map",
+    rule="cases: every (kind, fault set) of MC_Lifecycle (3 kinds x ~80 faults, pairs in thorough) concretised on base documents; seeded: arbitrary bytes, JSON-alphabet bytes, 1-4 byte-level mutations (overwrite, delete, insert structural bytes, truncate, splice extreme numbers, duplicate chunks, long VLQ runs, swap) of every repository fixture map, random regular / Hermes / nested index documents (mutated or not), random multi-fault documents; each run through detect, decode, ~all read-only queries, serialise + redecode, 16 rewrite option combinations, flatten; distinct = distinct (input digest, step); non-trivial = any step other than detection; well-formed documents of the map family (long lines with range flags, > 64 sources, every VLQ digit class) through the same life cycle; a sourceless token in the fault documents' base map; seek sessions on one TokenIter (any order, repeated, with next / nth / size_hint between); unparsable function maps",
     assumptions=COMMON_ASSUMPTIONS + ["fixtures are read from /repo/tests/fixtures at run time"],
 )
 
